@@ -340,7 +340,7 @@ def main():
         ],
         "checks": checks,
         "not_applicable": na,
-        "notes": "Technique family: static analysis only. exit 0 = all obligations discharged; exit 1 + VIOLATION line = an obligation failed that is not a listed known finding; exit 2 = analysis broken (parse failure, vanished anchor, instance floor not met). Known findings: /verif/known_findings.json.",
+        "notes": "Technique family: static analysis only. exit 0 = all obligations discharged; exit 1 + VIOLATION line = an obligation failed that is not a listed known finding; exit 2 = analysis broken (parse failure, vanished anchor, instance count below 60% of the count confirmed on the reviewed tree). Known findings: /verif/known_findings.json.",
     }
     with open(os.path.join(VERIF, "MANIFEST.json"), "w") as fh:
         json.dump(m, fh, indent=1)
